@@ -129,6 +129,11 @@ pub trait Check: Sync {
     }
     fn rule(&self) -> String;
     fn generate(&self, rng: &mut Rng, idx: usize, tier: Tier) -> Self::Scn;
+    /// Generator per batch stream (default: the one generator). Checks with a corpus stratum
+    /// override this for the stream named "corpus".
+    fn generate_stream(&self, _stream: &str, rng: &mut Rng, idx: usize, tier: Tier) -> Self::Scn {
+        self.generate(rng, idx, tier)
+    }
     fn execute(&self, scn: &Self::Scn) -> RunReport;
     /// Candidate simplifications of a failing scenario (each strictly "smaller").
     fn shrink(&self, _scn: &Self::Scn) -> Vec<Self::Scn> {
@@ -322,7 +327,7 @@ pub fn run_batch<C: Check>(check: &C, ctx: &Ctx, stream: &str, n: usize, open: &
                     }
                     let seed_i = rng::derive(ctx.seed, sid, i as u64);
                     let mut r = Rng::new(seed_i);
-                    let scn = check.generate(&mut r, i, ctx.tier);
+                    let scn = check.generate_stream(stream, &mut r, i, ctx.tier);
                     let rep = execute_caught(check, &scn);
                     // determinism sample: re-execute 1 in 20 in-process and compare digests
                     let recheck = i % 20 == 7;
